@@ -240,8 +240,10 @@ func (b *tableParagraphTransformer) parseRow(segment text.Segment,
 		row.AppendChild(row, node)
 		pos = closure + 1
 	}
-	for ; i < len(alignments); i++ {
-		row.AppendChild(row, ast.NewTableCell())
+	if !isHeader { // a header row must have as many cells as the delimiter row: it is never padded
+		for ; i < len(alignments); i++ {
+			row.AppendChild(row, ast.NewTableCell())
+		}
 	}
 	return row
 }
